@@ -254,8 +254,16 @@ func validHost(scheme, host string) bool {
 	if err != nil || p.Host != host || p.User != nil || p.Path != "" || p.RawQuery != "" || p.Fragment != "" {
 		return false
 	}
-	if p.Hostname() == "" && isSpecialNetProtocol(scheme) {
-		return false
+	if isSpecialNetProtocol(scheme) {
+		if p.Hostname() == "" {
+			return false
+		}
+		if !strings.HasPrefix(host, "[") {
+			// fixURL must be able to normalise it
+			if _, err := idna.Punycode.ToASCII(strings.ToLower(p.Hostname())); err != nil {
+				return false
+			}
+		}
 	}
 	if port := p.Port(); port != "" {
 		if n, err := strconv.Atoi(port); err != nil || n > math.MaxUint16 {
